@@ -3,9 +3,12 @@
 (* tempest.state_manager.StateManager as an object heap (property C17).     *)
 (*                                                                          *)
 (* ndarrays are heap CELLS: an identity (1..MaxC) and a content (a sequence *)
-(* of small integers: <<t>> = a batch filled with tag t, <<t1,t2>> = the    *)
-(* stacked/flattened image of two batches, <<0>> = scribbled by the caller, *)
-(* <<-1>> = free cell, <<-2>> = the content reported for None).  Python     *)
+(* of small integers: <<t>> = a batch of 2+t rows filled with t (the tag is  *)
+(* also the SHAPE class: batches with different tags cannot be stacked),     *)
+(* <<t1,t2>> = the stacked/flattened image of two batches, <<-10*t>> = a     *)
+(* batch of shape class t overwritten by the caller (the shape survives),    *)
+(* <<-1>> = free cell, <<-2>> = the content reported for None, <<-3>> = the  *)
+(* stacked image of a RAGGED history: undefined).  Python                    *)
 (* lists that hold history are LIST cells (1..MaxL) whose content is a      *)
 (* sequence of array cells (array keys) or of scalar values (key "beta").   *)
 (*                                                                          *)
@@ -61,6 +64,8 @@ CONSTANTS Impl,        \* FALSE: intended semantics; TRUE: code-shaped semantics
           MaxOps,      \* bound on the number of operations of a behaviour
           Record,      \* TRUE: keep the operation sequence in `path' (one state per behaviour)
           Populated,   \* TRUE: a second initial state with one committed batch
+          SeededRagged,\* TRUE: get_history(k) of a ragged history returns a container (object array) whose
+                       \* members ARE the stored batches (seeded variant) - must be refuted by TLC
           Labels,      \* TRUE: `last' carries the full operation label (replay); FALSE: only its class
           Getters      \* FALSE: leave out the pure getters (heap no-ops; the harness calls all of them
                        \* after every step anyway) - used to enumerate longer operation sequences
@@ -76,7 +81,10 @@ Keys == AK \cup {"beta"}       \* + one scalar key
 RK   == Keys \cup {"logw"}     \* keys of the results dictionary
 
 FREE == << -1 >>
-SCR  == << 0 >>
+RAGGED == << -3 >>
+\* the caller overwrites an array: every element is replaced, the shape stays
+Scr(ct) == [i \in DOMAIN ct |-> IF ct[i] > 0 THEN -10 * ct[i] ELSE ct[i]]
+ShapeOf(ct) == IF ct[1] > 0 THEN ct[1] ELSE (-ct[1]) \div 10
 NONE == << -2 >>
 
 KIdx(k) == CASE k = "x" -> 1 [] k = "logl" -> 2 [] k = "beta" -> 3 [] k = "logw" -> 4
@@ -154,6 +162,16 @@ Stack(S, k) == IF k = "beta" THEN H(S, "beta")
 
 Consistent(S) == Len(H(S, "x")) = Len(H(S, "beta")) /\ Len(H(S, "logl")) = Len(H(S, "beta"))
 
+\* A history whose batches have different shapes (a driver committing batches of varying size, a checkpoint
+\* resumed with another n_particles) is RAGGED.  Its stacked image - get_history(k) without index/flat,
+\* compute_results(), Sampler.results() - is not defined: the pinned code raises ValueError from numpy.  The
+\* specification leaves the value open (View reports RAGGED) but not the sharing: an accessor that does
+\* return something - an ndarray, or a CONTAINER of arrays such as a list, a dict or an object-dtype ndarray -
+\* must return fresh cells all the way down (NoAlias looks inside containers).  flat / index / last / to_dict
+\* are defined for ragged histories as for regular ones.
+Ragged(S, k) == \E i, j \in 1..Len(H(S, k)) : ShapeOf(S.arr[H(S, k)[i]]) # ShapeOf(S.arr[H(S, k)[j]])
+AnyRagged(S) == \E k \in AK : Ragged(S, k)
+
 \* what the accessors return, by content
 View(S) ==
     [cur   |-> [k \in AK |-> Cont(S, S.cur[k])],
@@ -161,8 +179,9 @@ View(S) ==
      hist  |-> [k \in AK |-> [i \in 1..Len(H(S, k)) |-> S.arr[H(S, k)[i]]]],
      bhist |-> H(S, "beta"),
      res   |-> IF S.cache.on THEN [k \in RK |-> Cont(S, S.cache.c[k])]
-               ELSE IF Consistent(S) THEN [k \in RK |-> Stack(S, k)]
-               ELSE [k \in RK |-> NONE]]
+               ELSE IF ~Consistent(S) THEN [k \in RK |-> NONE]
+               ELSE IF AnyRagged(S) THEN [k \in RK |-> RAGGED]
+               ELSE [k \in RK |-> Stack(S, k)]]
 
 -----------------------------------------------------------------------------
 (* The methods as heap transformers (before pruning) *)
@@ -356,7 +375,13 @@ Step(S, l) ==
 GetCurrent     == Getters /\ \E k \in Keys \cup {"ALL"} : Step(s, Lbl("get_current", k, 0, 0, FALSE))
 GetHistory     == Getters /\ \E k \in Keys : \E m \in {"stack", "flat"} :
                     /\ m = "flat" => (k \in AK /\ Len(H(s, k)) > 0)
+                    /\ m = "stack" => (k \in AK => ~Ragged(s, k))
                     /\ Step(s, Lbl("get_history", k, 0, IF m = "flat" THEN -1 ELSE 0, FALSE))
+\* get_history(k) of a ragged history: raises, or returns fresh cells (heap unchanged either way);
+\* seeded variant: the members of the returned container are the committed batches themselves
+GetHistoryRagged == Getters /\ \E k \in AK : Ragged(s, k) /\
+                    Step(IF SeededRagged THEN [s EXCEPT !.ext = @ \cup Range(H(s, k))] ELSE s,
+                         Lbl("get_history_ragged", k, 0, 0, FALSE))
 GetHistoryIdx  == Getters /\ \E k \in Keys : \E i \in 1..Len(H(s, k)) : Step(s, Lbl("get_history", k, 0, i, FALSE))
 GetLastHistory == Getters /\ \E k \in Keys : Step(s, Lbl("get_last_history", k, 0, 0, FALSE))
 GetHistoryLength == Getters /\ Step(s, Lbl("get_history_length", "", 0, 0, FALSE))
@@ -369,6 +394,8 @@ SetCurrentHeld == \E k \in AK : \E c \in s.ext : \E cp \in BOOLEAN :
                     /\ Where(s, c).k2 = k
                     /\ Step(SetHeld(s, k, c, cp), LblAt("set_current_held", k, cp, Where(s, c)))
 SetCurrentBeta == \E b \in 1..2 : Step(SetBeta(s, b), Lbl("set_current", "beta", b, 0, TRUE))
+\* update_current with a batch of ANOTHER size (shape class 2): the next commit makes the history ragged
+UpdateCurrentResized == Step(UpdNew(s, 2, 1, TRUE), Lbl("update_current", "", 2, 0, TRUE))
 UpdateCurrent  == \E t \in Tags : \E cp \in BOOLEAN :
                     Step(UpdNew(s, t, 1, cp), Lbl("update_current", "", t, 0, cp))
 Commit         == /\ \A k \in Keys : Len(H(s, k)) < MaxCommits
@@ -383,7 +410,7 @@ CommitStrictRejected ==
                   /\ Step(RejectedOp(s), Lbl("commit_strict_rejected", "", 0, 0, FALSE))
 \* set_current(k, None) for the keys strict mode requires
 UnsetCurrent   == \E k \in {"logl", "beta"} : Recorded(s, k) /\ Step(UnsetOp(s, k), Lbl("unset_current", k, 0, 0, FALSE))
-ComputeResults == Consistent(s) /\ Step(ResultsOp(s), Lbl("compute_results", "", 0, 0, FALSE))
+ComputeResults == Consistent(s) /\ ~AnyRagged(s) /\ Step(ResultsOp(s), Lbl("compute_results", "", 0, 0, FALSE))
 ToDict         == Step(ToDictOp(s), Lbl("to_dict", "", 0, 0, FALSE))
 MakeDict       == \E t \in Tags : \E n \in 0..1 : Step(MakeDictOp(s, t, n), Lbl("make_dict", "", t, n, FALSE))
 UpdateFromDict == s.d.on /\ Step(Resync(ImportOp(s)), Lbl("update_from_dict", "", 0, 0, FALSE))
@@ -393,8 +420,8 @@ LoadState      == s.disk.on /\ Step(Resync(LoadOp(s)), Lbl("load_state", "", 0, 
 
 \* the caller overwrites an array it holds (cp = the array was passed with copy=False)
 \* (an empty array - the stacked image of an empty history - has nothing to overwrite)
-CallerScribble == \E c \in s.ext : s.arr[c] # SCR /\ s.arr[c] # <<>> /\
-                    Step([s EXCEPT !.arr[c] = SCR], LblAt("scribble", "", c \in s.optin, Where(s, c)))
+CallerScribble == \E c \in s.ext : Scr(s.arr[c]) # s.arr[c] /\
+                    Step([s EXCEPT !.arr[c] = Scr(s.arr[c])], LblAt("scribble", "", c \in s.optin, Where(s, c)))
 \* the caller empties a list object it holds
 CallerScribbleList == \E l \in s.lext : s.lst[l] # <<>> /\
                     Step([s EXCEPT !.lst[l] = <<>>],
@@ -403,7 +430,7 @@ CallerScribbleList == \E l \in s.lext : s.lst[l] # <<>> /\
 CallerScribbleResDict == \E k \in RK : s.rheld /\ s.cache.on /\ s.cache.c[k] # 0 /\
                     Step([s EXCEPT !.cache.c[k] = 0], Lbl("scribble_resdict", k, 0, 0, FALSE))
 
-Next == \/ GetCurrent \/ GetHistory \/ GetHistoryIdx \/ GetLastHistory \/ GetHistoryLength \/ ComputeLogw
+Next == \/ GetCurrent \/ GetHistory \/ GetHistoryRagged \/ UpdateCurrentResized \/ GetHistoryIdx \/ GetLastHistory \/ GetHistoryLength \/ ComputeLogw
         \/ SetCurrent \/ SetCurrentHeld \/ SetCurrentBeta \/ UpdateCurrent \/ Commit
         \/ CommitStrict \/ CommitStrictRejected \/ UnsetCurrent
         \/ ComputeResults \/ ToDict \/ MakeDict \/ UpdateFromDict \/ FromDict \/ SaveState \/ LoadState
